@@ -73,6 +73,10 @@ def project_key(c):
 
 def classify_design_diff(o1, o2):
     if o1["errset"] != o2["errset"] or o1["emitted"] != o2["emitted"] or o1["fail"] != o2["fail"]:
+        def miss(o):
+            return sorted(json.dumps(e) for e in o["errset"] if e and e[0] == "missing")
+        if miss(o1) != miss(o2):
+            return "missing-blame"      # which of several imports of a missing module claims it (and is reported)
         return "cycle-blame"
     if o1["names"] != o2["names"]:
         return "litid-race"
@@ -91,7 +95,8 @@ def run(tier, seed, replay=None):
     n3 = 60 if tier == "quick" else 700
     n4 = 15 if tier == "quick" else 300
     cases = []
-    for cfg, n in (("Gen_Loader3R.cfg", n3), ("Gen_Loader4R.cfg", n4)):
+    nm = 24 if tier == "quick" else 300
+    for cfg, n in (("Gen_Loader3R.cfg", n3), ("Gen_Loader4R.cfg", n4), ("Gen_Loader4MR.cfg", nm)):
         r = tlc.require_ok(tlc.run(env.tmpdir("tlc"), "MC_Loader", cfg, ["loader"], workers=4,
                                    simulate="num=%d" % max(1, n // 4), depth=400, seed=seed, timeout=1800), cfg)
         cases += r["cases"]
